@@ -18,7 +18,7 @@ def run(ctx):
     exes = build(ctx)
     exe = exes["h_writer"]
     th = ctx.tier == "thorough"
-    calls = [((exe, "c08", 60000 if th else 5000), dict(timeout=120, max_workers=15 if th else 16))]
+    calls = [((exe, "c08", 60000 if th else 5000), dict(timeout=120, max_workers=15 if th else 16, chunk=100 if th else 20))]   # many short processes: some state of the writer code is per process
     if th:   # keys of 2^31 + 1 bytes against their own prefixes / extensions (about 6 GiB and 20 s per case, -O2 build)
         calls.append(((exes["h_writer.plain"], "c08big", 5), dict(chunk=1, timeout=900, max_workers=1, prefix="plain.")))
     ctx.fan_parallel(calls)
@@ -34,6 +34,6 @@ def run(ctx):
              "distinct_nontrivial = distinct sequences",
         evaluations=adds,
         floors={"c08.sequences": 4000, "c08.adds.refused.equal": 2000, "c08.adds.refused.proper-prefix": 2000, "c08.adds.refused.sign-trap-down(0x80->0x7f)": 300,
-                "c08.adds.accepted.sign-trap-up(0x7f->0x80)": 300, "c08.adds.accepted.first-empty-key": 100, "c08.multi_block_files": 500,
+                "c08.adds.accepted.sign-trap-up(0x7f->0x80)": 300, "c08.adds.accepted.first-empty-key": 100, "c08.adds.accepted.first-key-ends-in-00": 300, "c08.multi_block_files": 500,
                 "c08pre.targets.regular-file": 20, "c08pre.targets.dangling-symlink": 20, "c08pre.targets.directory": 20, "c08pre.targets.symlink-to-file": 20, **({"plain.c08big.cases": 5, "plain.c08big.key_plus_value_over_UINT32_MAX": 1} if th else {})},
         extra={"adds": adds, "refused_adds": refused})
